@@ -50,7 +50,7 @@ def cases(tier, seed):
         out.append({"id": e1.fv_id(fv), "fv": fv, "jits": jits, "dev": dev, "seed": seed, "tier": tier})
         seen.add(e1.fv_id(fv))
     # explicit size letters: more periods than any family option, a fine grid (sizes beyond the structural alphabet)
-    for extra in ({"T": 6}, {"T": 6, "filt": "grow"}, {"T": 6, "h": "ph"}, {"T": 7, "filt": "mix", "h": "hp"}, {"wgrid": "fine"}, {"wgrid": "fine", "k": "log", "T": 2}):
+    for extra in ({"T": 6}, {"T": 6, "filt": "grow"}, {"T": 6, "h": "ph"}, {"T": 7, "filt": "mix", "h": "hp"}, {"wgrid": "fine"}, {"wgrid": "fine", "k": "log", "T": 2}, {"T": 12, "cc": "none", "wgrid": "disc"}, {"T": 12, "uperiod": 1}):
         fv = family.normalise(dict(family.BASE, **extra))
         if fv is not None and e1.fv_id(fv) not in seen:
             seen.add(e1.fv_id(fv))
